@@ -129,6 +129,83 @@ def compute():
     return out
 
 
+def in_process_variants(st, prefixes):
+    """The same battery computed (a) in a second thread and (b) after
+    calls that failed: identical results."""
+    import threading
+    from dxv import sut
+    ns = sut.load()
+    here = compute()
+    n = 0
+
+    def keep(k):
+        return k.split(':')[0] in prefixes or (
+            k.split(':')[1:2] and
+            k.split(':')[1].split('@')[0].split('+')[0] in prefixes)
+
+    box = {}
+
+    def work():
+        try:
+            box['r'] = compute()
+        except BaseException as e:        # reported below
+            box['e'] = e
+
+    t = threading.Thread(target=work)
+    t.start()
+    t.join()
+    variants = [('in a second thread', box.get('r'), box.get('e'))]
+
+    # calls that fail: nothing they switched on may stay on
+    failures = []
+
+    for make in (
+            lambda: ns.DiffX.from_bytes(b'#diffx: version=9\n'),
+            lambda: ns.text.split_lines(b'', b'\n'),
+            lambda: ns.DiffXWriter(io.BytesIO(), version='2.0'),
+            lambda: ns.unified_diffs.get_unified_diff_hunks(
+                [b'@@ -1,5 +1,5 @@', b' x']),
+            lambda: _failing_stats(ns)):
+        try:
+            make()
+        except BaseException as e:
+            failures.append(type(e).__name__)
+
+    try:
+        variants.append(('after %d failed calls' % len(failures), compute(),
+                         None))
+    except BaseException as e:
+        variants.append(('after failed calls', None, e))
+
+    for label, there, err in variants:
+        keys = [k for k in sorted(here) if keep(k)]
+        n += len(keys)
+
+        if err is not None or there is None:
+            st.violation('results-depend-on-thread-or-history',
+                         '%s: %r' % (label, err), {'variant': label})
+            continue
+
+        diff = [k for k in keys if here.get(k) != there.get(k)]
+
+        if diff:
+            st.violation('results-depend-on-thread-or-history',
+                         '%s: %d of %d results differ, e.g. %s'
+                         % (label, len(diff), len(keys), diff[0]),
+                         {'variant': label, 'key': diff[0]})
+
+    return n
+
+
+def _failing_stats(ns):
+    tree = ns.DiffX()
+    f = tree.add_change().add_file(meta={'path': 'p'})
+    f.diff = b'@@ -1 +1 @@\r\n-a\r\n+b\r\n'
+    f.diff_line_endings = 'dos'
+    f.diff_encoding = 'no-such-codec'
+    tree.generate_stats()
+
+
 def compare(st, prefixes, HarnessError):
     """Run the battery here and in children started with -O and with -bb;
     report keys (restricted to ``prefixes``) whose results differ."""
